@@ -189,15 +189,41 @@ pub fn gen_scn(rs: u64, tier: Tier) -> Scn {
             let host = host.filter(|h| !h.is_empty() && !h.contains(' '));
             // choose a path: derived from some route of some app, or free
             let all_routes: Vec<String> = hosts.iter().chain(std::iter::once(&default)).flat_map(|h| if ws { h.ws_routes.clone() } else { h.routes.clone() }).collect();
+            let mut from_pattern: Option<String> = None;
             let mut path = if !all_routes.is_empty() && rng.chance(3, 4) {
                 let k = rng.usize_below(all_routes.len());
                 let p = all_routes[k].clone();
+                from_pattern = Some(p.clone());
                 text_for(&mut rng, &p)
             } else {
                 gen_text(&mut rng, "/", 3)
             };
             if !path.starts_with('/') {
                 path = format!("/{}", path);
+            }
+            // one pattern-derived path in sixteen is long: the first wildcard of the pattern has to take
+            // 2049..6000 characters (whether a pattern matches does not depend on how long the text is)
+            {
+                let mut r6 = Rng::new(humsim::rng::mix(&[rng.next_u64(), 0xC04_0006]));
+                if let Some(p) = &from_pattern {
+                    if p.contains('*') && r6.chance(1, 16) {
+                        let n = [2049usize, 2100, 3000, 6000][r6.usize_below(4)];
+                        let filler: String = (0..n).map(|i| ['a', 'b', 'x', '.', '/'][(i * 7 + n) % 5]).collect();
+                        let mut first = true;
+                        let mut long = String::new();
+                        for c in p.chars() {
+                            if c == '*' {
+                                if first {
+                                    long.push_str(&filler);
+                                    first = false;
+                                }
+                            } else {
+                                long.push(c);
+                            }
+                        }
+                        path = if long.starts_with('/') { long } else { format!("/{}", long) };
+                    }
+                }
             }
             // a literal `*` is a legal path character: one path in eight has one somewhere after the
             // leading slash (where a pattern has its wildcard, the wildcard has to take it)
@@ -336,7 +362,7 @@ impl Prop for C04 {
         }
     }
     fn rule(&self) -> &'static str {
-        "One case = a generated application (0..4 host sub-apps with patterns over literals / prefixes / suffixes / infixes / multiple and adjacent `*` / self-overlapping literals / 2- and 4-byte characters / mixed-case names spelled by the client exactly as registered, 0..6 HTTP routes and 0..3 WebSocket routes each, plus the default app) and 1..4 concurrent client connections of 1..6 keep-alive requests with Host absent / exact / wildcard-matching / with port / non-matching and paths matching several, one or no routes (one in eight containing a literal `*`), with and without query; WebSocket upgrade requests end a connection. Every handler answers with its identity; the oracle is a reference router over an independent DP glob matcher. This check is dominated by seeded configuration/input generation; the simulator contributes the connection history, concurrency and runtime dimension. Distinct = distinct (app shape, request sequence, identities answered); non-trivial = at least one host sub-app, two requests, and a request whose path matches more than one route or whose host matches more than one sub-app."
+        "One case = a generated application (0..4 host sub-apps with patterns over literals / prefixes / suffixes / infixes / multiple and adjacent `*` / self-overlapping literals / 2- and 4-byte characters / mixed-case names spelled by the client exactly as registered, 0..6 HTTP routes and 0..3 WebSocket routes each, plus the default app) and 1..4 concurrent client connections of 1..6 keep-alive requests with Host absent / exact / wildcard-matching / with port / non-matching and paths matching several, one or no routes (one in eight containing a literal `*`, one pattern-derived path in sixteen 2049..6000 characters long), with and without query; WebSocket upgrade requests end a connection. Every handler answers with its identity; the oracle is a reference router over an independent DP glob matcher. This check is dominated by seeded configuration/input generation; the simulator contributes the connection history, concurrency and runtime dimension. Distinct = distinct (app shape, request sequence, identities answered); non-trivial = at least one host sub-app, two requests, and a request whose path matches more than one route or whose host matches more than one sub-app."
     }
     fn assumptions(&self) -> Vec<String> {
         vec![
